@@ -187,7 +187,12 @@ ENGINE_INFO = {
                   'production)'],
             stubbed=['thread scheduler (seeded baton, random walk / PCT)',
                      'TSan runtime (our implementation of the ABI: access log, '
-                     'vector clocks)', 'operator new/delete (yield points)'])),
+                     'vector clocks)', 'operator new/delete (yield points)',
+                     'libc functions with hidden state (strtok, rand, srand, random, '
+                     'strerror, localtime, gmtime, setlocale): wrapped, each call is an '
+                     'access to a stand-in object in static storage',
+                     'process boundaries: every episode in a cold forked process, every '
+                     'task additionally alone in its own fresh process (cold reference)'])),
 }
 
 
